@@ -693,7 +693,7 @@ class C08(Prop):
         if os.path.isdir(d):
             for f in sorted(os.listdir(d)):
                 if f.endswith(".json"):
-                    out.append(json.load(open(os.path.join(d, f)))["case"])
+                    out.append(core.load_case_file(os.path.join(d, f))["case"])
         return out
 
     # ---------------------------------------------------------------- execution
@@ -706,13 +706,10 @@ class C08(Prop):
         return int(1024 * f * 1.5) if f > 1.0 else 1024
 
     def build_checked(self):
-        with core.Lock("cargo"):
-            rc, out = core.sh(["cargo", "build", "--offline", "--quiet", "--profile", "checked", "--bin", "c08"],
-                              cwd=core.HARNESS, timeout=1500,
-                              env={"CARGO_NET_OFFLINE": "true", "RUSTFLAGS": "--cfg boreal_verif"})
-        if rc != 0:
+        ok, out, bind = core.harness_build(("c08",), profile="checked")
+        if not ok:
             raise RuntimeError("checked build of the C08 harness failed: " + out[-1500:])
-        return os.path.join(core.HARNESS, "target", "checked")
+        return bind
 
     def execute(self, ctx, cases):
         if not getattr(ctx, "bind_checked", None):
